@@ -170,7 +170,6 @@ Crossbeam<'a, ItemType, BUFFER_SIZE, MAX_STREAMS> {
                     #[cfg(feature = "verif")] crate::verif::yield_point("multi.xb.send.before_try_send");
                     let _ = sender.try_send(arc_item.clone());
                     #[cfg(feature = "verif")] crate::verif::yield_point("multi.xb.send.after_try_send");
-                    self.streams_manager.wake_stream(*stream_id);
                 },
                 _ => while sender.try_send(arc_item.clone()).is_err() {
                     self.streams_manager.wake_stream(*stream_id);
@@ -180,6 +179,9 @@ warn!("Multi Channel's Arc Crossbeam (named '{channel_name}', {used_streams_coun
 std::thread::sleep(Duration::from_millis(500));
                 },
             }
+            // always wake after publishing: `len_before` was sampled before `try_send()` and the listener may have
+            // drained its queue (and gone to sleep) in between -- the event would sit there until another send
+            self.streams_manager.wake_stream(*stream_id);
         }
         true
     }
